@@ -102,9 +102,10 @@ def gen(R, tier):
         case = dict(level=level, node=k, natoms=n, names=names)
     elif R.chance(0.2):
         # an explicitly written, annotated hydrogen
-        template = R.choice(['[$]C([H@])[$]', '[$]N([H@])C[$]', '[$]C([H@])([H])O[$]'])
+        template, k = R.choice([('[$]C([H@])[$]', 1), ('[$]N([H@])C[$]', 1), ('[$]C([H@])([H])O[$]', 1),
+                                ('[$][C@]([H])C[$]', 0), ('[$]C[N@]([H])[$]', 1)])
         variants = [template.replace('@', a) for a in arr]
-        case = dict(level=level, node=1, natoms=2, explicit_h=True)
+        case = dict(level=level, node=k, natoms=2, explicit_h=True)
     elif R.chance(0.15):
         # annotated ring atom after an aliphatic/aromatic letter pair and ring digits
         template, k = R.choice([('[$]CSc1cc[cH@]cc1', 5), ('[$]Sc1ccc([cH@]c1)Cl', 5), ('[$]NCc1c[cH@]ncc1', 4),
@@ -200,8 +201,8 @@ def oracle(case):
         for n in copies:
             _check_attrs(dict(fine.nodes[n]), want, '%s fine node %d' % (full, n), False)
         for n, d in fine.nodes(data=True):
-            if n in copies or d.get('element') == 'H':
-                continue    # other hydrogens copy the weight of their atom (C09)
+            if n in copies or (d.get('element') == 'H' and 'mapping' not in d):
+                continue    # completed hydrogens copy the weight of their atom (C09)
             expect(d.get('weight') == 1 and 'chiral' not in d and not (set(given) - {'weight', 'chiral'}) & set(d),
                    'annotation:leak', lambda: '%s: other node %d carries %r' % (full, n, {k: d[k] for k in d if k in given or k == 'weight'}))
         # the coarse nodes keep defaults
